@@ -4,6 +4,16 @@
    the history alphabet of the property and the REFERENCE wait-for relation as a
    ghost component next to the controller state.  Executable definitions only.
 
+   Priorities are not fixed for the life of an operation: priority.py
+   (PriorityInheritance.check_and_boost / restore_priority / clear_all, the first
+   also run by CoordinationSystem.run_maintenance right before the watchdog)
+   rewrites OperationContext.priority, any caller may assign it, and
+   ResourceLock.allow_preemption is a plain attribute.  None of these calls is an
+   acquisition, so none of them may change the wait-for relation, but they decide
+   what LATER acquisitions return (a waiter that was BLOCKED on r can come back
+   and PREEMPT r).  They are the extended alphabet [xop] at the end of this file;
+   PriorityInheritance.active_boosts is the third component of the state.
+
    READING.  W is "currently blocked on r" iff W's latest acquisition attempt on
    r returned BLOCKED, W has not obtained r since, W is still active and r has
    been owned ever since (possibly by a new owner after a preemption).  The
@@ -110,10 +120,166 @@ Fixpoint grun_obs (fl : flags) (w : wcfg) (gs : gstate) (hs : list hop) : list (
         ++ grun_obs fl w gs' rest
   end.
 
+(* ------------------------------------------------------------------ *)
+(* priority.py and the other calls that change what a later acquisition
+   returns without being an acquisition themselves                      *)
+
+Definition c_set_prio (c : ctx) (p : Z) : ctx :=
+  mkCtx p (c_phase c) (c_phase_at c) (c_acq c) (c_racq c) (c_exec c) (c_valid c) (c_created c) (c_exempt c).
+
+Definition l_set_preempt (l : lock) (b : bool) : lock :=
+  mkLock (l_owner l) (l_prio l) (l_hold l) b (l_wait l).
+
+(* ctx.priority = p *)
+Definition set_prio (s : st) (o p : Z) : st :=
+  match get_ctx s o with Some c => put_ctx s o (c_set_prio c p) | None => s end.
+
+(* controller.active_operations.get(o) *)
+Definition active_ctx (s : st) (o : Z) : option ctx :=
+  if is_active s o then get_ctx s o else None.
+
+(* PriorityInheritance.active_boosts: operation -> (original_priority, boosted_priority),
+   a dict in insertion order *)
+Definition boosts := list (Z * (Z * Z)).
+
+(* DependencyGraph.get_blocking_chain(agent)[1:]: follow the FIRST recorded edge
+   until a node without edges or an already visited node.  [None] = out of fuel
+   (excluded by c15_blocking_chain_fuel_suffices). *)
+Fixpoint chain_walk (fuel : nat) (g : graph) (cur : Z) (visited : list Z) : option (list Z) :=
+  match fuel with
+  | O => None
+  | S f =>
+      match succs g cur with
+      | [] => Some []
+      | (b, _) :: _ =>
+          if memz b visited then Some []
+          else match chain_walk f g b (b :: visited) with
+               | Some l => Some (b :: l)
+               | None => None
+               end
+      end
+  end.
+
+Definition blocking_tail (g : graph) (a : Z) : option (list Z) :=
+  chain_walk (S (length g)) g a [a].
+
+(* the inner loop of check_and_boost over chain[1:] *)
+Fixpoint boost_chain (s : st) (bs : boosts) (maxp : Z) (ch : list Z)
+  : st * boosts * list (Z * Z * Z) :=
+  match ch with
+  | [] => (s, bs, [])
+  | o :: rest =>
+      match active_ctx s o with
+      | None => boost_chain s bs maxp rest
+      | Some c =>
+          if Z.ltb (c_prio c) maxp then
+            let orig := match aget bs o with Some ob => fst ob | None => c_prio c end in
+            let '(s2, bs2, nb) :=
+              boost_chain (put_ctx s o (c_set_prio c maxp)) (aset bs o (orig, maxp)) maxp rest in
+            (s2, bs2, (o, orig, maxp) :: nb)
+          else boost_chain s bs (Z.max maxp (c_prio c)) rest
+      end
+  end.
+
+(* the outer loop: for waiter_id in list(graph.edges.keys()) *)
+Fixpoint boost_waiters (g : graph) (keys : list Z) (s : st) (bs : boosts)
+  : option (st * boosts * list (Z * Z * Z)) :=
+  match keys with
+  | [] => Some (s, bs, [])
+  | wt :: rest =>
+      match active_ctx s wt with
+      | None => boost_waiters g rest s bs
+      | Some c =>
+          match blocking_tail g wt with
+          | None => None
+          | Some ch =>
+              let '(s1, bs1, nb1) := boost_chain s bs (c_prio c) ch in
+              match boost_waiters g rest s1 bs1 with
+              | Some (s2, bs2, nb2) => Some (s2, bs2, nb1 ++ nb2)
+              | None => None
+              end
+          end
+      end
+  end.
+
+(* PriorityInheritance.check_and_boost(controller) -> new boosts (operation, original, boosted) *)
+Definition check_and_boost (s : st) (bs : boosts) : option (st * boosts * list (Z * Z * Z)) :=
+  boost_waiters (edges s) (map fst (edges s)) s bs.
+
+(* PriorityInheritance.clear_all(controller): restore every boosted operation that is still active *)
+Definition clear_boosts (s : st) (bs : boosts) : st :=
+  fold_left (fun s (kv : Z * (Z * Z)) =>
+               if is_active s (fst kv) then set_prio s (fst kv) (fst (snd kv)) else s) bs s.
+
+Inductive xop :=
+| XHop (h : hop)
+| XBoost                          (* priority_manager.check_and_boost(controller) *)
+| XRestore (o : Z)                (* ctx = active_operations.get(o); priority_manager.restore_priority(ctx) *)
+| XClearBoosts                    (* priority_manager.clear_all(controller) *)
+| XSetPrio (o p : Z)              (* active_operations.get(o).priority = p *)
+| XSetPreempt (r : Z) (b : bool). (* controller.resources[r].allow_preemption = b *)
+
+Definition xstate := (gstate * boosts)%type.
+
+(* [-1] = the driver did not make the call (operation not active / resource not registered);
+   [-7] = out of fuel *)
+Definition xstep (fl : flags) (w : wcfg) (xs : xstate) (a : xop) : xstate * list Z :=
+  let '(gs, bs) := xs in
+  let '(s, ws) := gs in
+  match a with
+  | XHop h => let '(gs', ret) := gstep fl w gs h in ((gs', bs), ret)
+  | XBoost =>
+      match check_and_boost s bs with
+      | Some (s', bs', nb) => (((s', ws), bs'), tri_flat nb)
+      | None => (xs, [-7])
+      end
+  | XRestore o =>
+      if is_active s o then
+        match aget bs o with
+        | Some ob => (((set_prio s o (fst ob), ws), adel bs o), [1; fst ob])
+        | None => (xs, [0])
+        end
+      else (xs, [-1])
+  | XClearBoosts => (((clear_boosts s bs, ws), []), [Z.of_nat (length bs)])
+  | XSetPrio o p => if is_active s o then (((set_prio s o p, ws), bs), [0]) else (xs, [-1])
+  | XSetPreempt r b =>
+      match get_lock s r with
+      | Some l => (((put_lock s r (l_set_preempt l b), ws), bs), [0])
+      | None => (xs, [-1])
+      end
+  end.
+
+Fixpoint xrun (fl : flags) (w : wcfg) (xs : xstate) (hs : list xop) : xstate :=
+  match hs with
+  | [] => xs
+  | a :: rest => xrun fl w (fst (xstep fl w xs a)) rest
+  end.
+
+Definition xinit (res : list (Z * bool)) : xstate := (ginit res, []).
+
+(* the current priority of every active operation, the active boosts, the preemption flags *)
+Definition obs_prio (xs : xstate) : list (list Z) :=
+  let s := fst (fst xs) in
+  [205 :: flat_map (fun o => [o; prio_of s o]) (active s);
+   206 :: flat_map (fun kv : Z * (Z * Z) => [fst kv; fst (snd kv); snd (snd kv)]) (snd xs);
+   207 :: flat_map (fun rl : Z * lock => [fst rl; b2z (l_preempt (snd rl))]) (resources s)].
+
+Fixpoint xrun_obs (fl : flags) (w : wcfg) (xs : xstate) (hs : list xop) : list (list Z) :=
+  match hs with
+  | [] => []
+  | a :: rest =>
+      let '(xs', ret) := xstep fl w xs a in
+      [100 :: ret] ++ obs_state (fst (fst xs'))
+        ++ [201 :: tri_flat (tri_sort (rec_edges (fst (fst xs'))));
+            204 :: tri_flat (tri_sort (ref_edges (fst xs')))]
+        ++ obs_prio xs'
+        ++ xrun_obs fl w xs' rest
+  end.
+
 (* registered resources (id, allow_preemption), deadlock strategy, history *)
-Definition case := (list (Z * bool) * strategy * list hop)%type.
+Definition case := (list (Z * bool) * strategy * list xop)%type.
 
 Definition run_case_with (fl : flags) (c : case) : list (list Z) :=
-  let '(res, strat, hs) := c in grun_obs fl (mkW None None None strat) (ginit res) hs.
+  let '(res, strat, hs) := c in xrun_obs fl (mkW None None None strat) (xinit res) hs.
 
 Definition run_case (c : case) : list (list Z) := run_case_with current c.
